@@ -4,13 +4,13 @@ go 1.22.6
 
 require (
 	github.com/buildkite/go-pipeline v0.0.0
+	github.com/buildkite/interpolate v0.1.5
 	github.com/google/go-cmp v0.7.0
 	github.com/lestrrat-go/jwx/v2 v2.1.4
 	gopkg.in/yaml.v3 v3.0.1
 )
 
 require (
-	github.com/buildkite/interpolate v0.1.5 // indirect
 	github.com/gowebpki/jcs v1.0.1 // indirect
 	github.com/lestrrat-go/blackmagic v1.0.2 // indirect
 	github.com/lestrrat-go/httpcc v1.0.1 // indirect
